@@ -9,6 +9,9 @@ inductive Sub : T → T → Prop
   | item {s a : T} {items : List T} : a ∈ items → Sub s a → Sub s (.coll items)
   | head {s h : T} (body : List T) : Sub s h → Sub s (.compr h body)
   | body {s a : T} (h : T) {body : List T} : a ∈ body → Sub s a → Sub s (.compr h body)
+  | wvBody {s t : T} (target : String) (value : T) : Sub s t → Sub s (.withVal t target value)
+  | wvValue {s v : T} (t : T) (target : String) : Sub s v → Sub s (.withVal t target v)
+  | wfBody {s t : T} (target fn : String) : Sub s t → Sub s (.withFn t target fn)
 
 theorem mentionsDeniedList_of_mem (deny : List String) {a : T} : ∀ {ts : List T}, a ∈ ts →
     mentionsDenied deny a = true → mentionsDeniedList deny ts = true
@@ -35,32 +38,48 @@ theorem sub_plug (s : T) : ∀ c : Ctx, Sub s (plug c s)
   | .collItem pre c post => .item (by simp) (sub_plug s c)
   | .comprHead c body => .head body (sub_plug s c)
   | .comprBody h pre c post => .body h (by simp) (sub_plug s c)
+  | .withValBody c target value => .wvBody target value (sub_plug s c)
+  | .withValValue t target c => .wvValue t target (sub_plug s c)
+  | .withFnBody c target fn => .wfBody target fn (sub_plug s c)
 
 mutual
-/-- Completeness of the walk: it reports only actual calls to denied operators. -/
+/-- Completeness of the walk: it reports only actual uses (a call, or a `with … as op` binding) of denied operators. -/
 theorem sub_of_mentions (deny : List String) : ∀ t : T, mentionsDenied deny t = true →
-    ∃ op args, op ∈ deny ∧ Sub (.call op args) t
+    ∃ op u, op ∈ deny ∧ u.usesOp op = true ∧ Sub u t
   | .var _, h => by simp [mentionsDenied] at h
   | .lit, h => by simp [mentionsDenied] at h
   | .call op args, h => by
     simp only [mentionsDenied, Bool.or_eq_true] at h
     rcases h with h | h
-    · exact ⟨op, args, by simpa using h, .refl _⟩
-    · obtain ⟨a, ha, op', args', hop, hs⟩ := sub_of_mentionsList deny args h
-      exact ⟨op', args', hop, .arg op ha hs⟩
+    · exact ⟨op, .call op args, by simpa using h, by simp [T.usesOp], .refl _⟩
+    · obtain ⟨a, ha, op', u, hop, hu, hs⟩ := sub_of_mentionsList deny args h
+      exact ⟨op', u, hop, hu, .arg op ha hs⟩
   | .coll items, h => by
     simp only [mentionsDenied] at h
-    obtain ⟨a, ha, op', args', hop, hs⟩ := sub_of_mentionsList deny items h
-    exact ⟨op', args', hop, .item ha hs⟩
+    obtain ⟨a, ha, op', u, hop, hu, hs⟩ := sub_of_mentionsList deny items h
+    exact ⟨op', u, hop, hu, .item ha hs⟩
   | .compr hd body, h => by
     simp only [mentionsDenied, Bool.or_eq_true] at h
     rcases h with h | h
-    · obtain ⟨op', args', hop, hs⟩ := sub_of_mentions deny hd h
-      exact ⟨op', args', hop, .head body hs⟩
-    · obtain ⟨a, ha, op', args', hop, hs⟩ := sub_of_mentionsList deny body h
-      exact ⟨op', args', hop, .body hd ha hs⟩
+    · obtain ⟨op', u, hop, hu, hs⟩ := sub_of_mentions deny hd h
+      exact ⟨op', u, hop, hu, .head body hs⟩
+    · obtain ⟨a, ha, op', u, hop, hu, hs⟩ := sub_of_mentionsList deny body h
+      exact ⟨op', u, hop, hu, .body hd ha hs⟩
+  | .withVal t target value, h => by
+    simp only [mentionsDenied, Bool.or_eq_true] at h
+    rcases h with h | h
+    · obtain ⟨op', u, hop, hu, hs⟩ := sub_of_mentions deny t h
+      exact ⟨op', u, hop, hu, .wvBody target value hs⟩
+    · obtain ⟨op', u, hop, hu, hs⟩ := sub_of_mentions deny value h
+      exact ⟨op', u, hop, hu, .wvValue t target hs⟩
+  | .withFn t target fn, h => by
+    simp only [mentionsDenied, Bool.or_eq_true] at h
+    rcases h with h | h
+    · exact ⟨fn, .withFn t target fn, by simpa using h, by simp [T.usesOp], .refl _⟩
+    · obtain ⟨op', u, hop, hu, hs⟩ := sub_of_mentions deny t h
+      exact ⟨op', u, hop, hu, .wfBody target fn hs⟩
 theorem sub_of_mentionsList (deny : List String) : ∀ ts : List T, mentionsDeniedList deny ts = true →
-    ∃ a ∈ ts, ∃ op args, op ∈ deny ∧ Sub (.call op args) a
+    ∃ a ∈ ts, ∃ op u, op ∈ deny ∧ u.usesOp op = true ∧ Sub u a
   | [], h => by simp [mentionsDeniedList] at h
   | t :: ts, h => by
     simp only [mentionsDeniedList, Bool.or_eq_true] at h
@@ -89,5 +108,14 @@ theorem plug_of_sub {s t : T} (h : Sub s t) : ∃ c : Ctx, plug c s = t := by
     obtain ⟨c, hc⟩ := ih
     obtain ⟨pre, post, rfl⟩ := List.append_of_mem hm
     exact ⟨.comprBody h pre c post, by simp [plug, hc]⟩
+  | wvBody target value _ ih =>
+    obtain ⟨c, hc⟩ := ih
+    exact ⟨.withValBody c target value, by simp [plug, hc]⟩
+  | wvValue t target _ ih =>
+    obtain ⟨c, hc⟩ := ih
+    exact ⟨.withValValue t target c, by simp [plug, hc]⟩
+  | wfBody target fn _ ih =>
+    obtain ⟨c, hc⟩ := ih
+    exact ⟨.withFnBody c target fn, by simp [plug, hc]⟩
 
 end Acv.RegoTerm
